@@ -116,7 +116,8 @@ class ModelEngine(Engine):
                        'the file system path / stream handed to the reader (short reads)']
     assumptions = ['a quantity the caller stored without a unit is only promised back in the same working units',
                    'storage units are generated dimensionally correct for the quantity they store',
-                   'string values that XML would re-type (numbers, true/false, empty) are not generated']
+                   'string values that XML would re-type (numbers, true/false, empty) are not generated',
+                   'a refused call between a write and a read (reset_units, a dump onto the same file, System.model, a masses assignment, a record read into a live ElasticConstants) changes nothing that is written or read afterwards']
 
     # ------------------------------------------------------------------
     def config(self, ctx):
